@@ -168,7 +168,7 @@ func family(p string) string {
 // mayMatch is generous: equal ignoring case, or same alias family, or (for the
 // unix family) macos entries tagged unix/bash/zsh.
 func mayMatch(entryPlat, inForce string) bool {
-	if strings.EqualFold(entryPlat, inForce) {
+	if strings.EqualFold(entryPlat, inForce) || strings.EqualFold(strings.TrimSpace(entryPlat), strings.TrimSpace(inForce)) {
 		return true
 	}
 	fe, ff := family(entryPlat), family(inForce)
@@ -200,6 +200,17 @@ func PlatformLeak(c *Cmd, o database.SearchOptions, isTool func(string) bool) (b
 	inForce := o.Platforms
 	if len(inForce) == 0 {
 		inForce = []string{HostPlatform()}
+	} else {
+		// a request made only of blank names: an implementation may take it literally or as "nothing asked" (host); both are accepted
+		allBlank := true
+		for _, f := range inForce {
+			if strings.TrimSpace(f) != "" {
+				allBlank = false
+			}
+		}
+		if allBlank {
+			inForce = append(append([]string{}, inForce...), HostPlatform())
+		}
 	}
 	for _, p := range c.Platform {
 		for _, f := range inForce {
